@@ -1719,7 +1719,8 @@ impl<'a> AstResolver<'a> {
         ty: &mut World,
     ) -> ResolutionResult<()> {
         log::debug!("resolving include of world `{world}`");
-        let mut replacements = HashMap::new();
+        // (insertion-ordered, so that the name reported as missing is the first in the source)
+        let mut replacements = IndexMap::new();
         for item in &include.with {
             let prev = replacements.insert(item.from.string, item);
             if prev.is_some() {
@@ -1799,7 +1800,7 @@ impl<'a> AstResolver<'a> {
             ty: &mut World,
             name: &str,
             kind: ExternKind,
-            replacements: &mut HashMap<&str, &ast::WorldIncludeItem<'a>>,
+            replacements: &mut IndexMap<&str, &ast::WorldIncludeItem<'a>>,
         ) -> ResolutionResult<String> {
             // Check for a id, which doesn't get replaced.
             if name.contains(':') {
@@ -1807,7 +1808,7 @@ impl<'a> AstResolver<'a> {
             }
 
             let (name, span) = replacements
-                .remove(name)
+                .shift_remove(name)
                 .map(|i| (i.to.string, i.to.span))
                 .unwrap_or_else(|| (name, include.world.span()));
 
